@@ -4,6 +4,7 @@
 -/
 import Rpki.Proofs.RrdpLemmas
 import Rpki.Proofs.XmlLemmas
+import Rpki.Proofs.RrdpDoc
 namespace Rpki.Props.C09
 set_option autoImplicit false
 open Rpki.Rrdp Rpki.Xml
@@ -81,6 +82,37 @@ theorem object_decode_iff (t d : Bytes) :
 theorem b64_text_is_clean (d : Bytes) (hd : ∀ x ∈ d, x < 256) :
     skipWs (b64Encode d) = b64Encode d ∧ ∀ x ∈ b64Encode d, 43 ≤ x ∧ x ≤ 122 :=
   ⟨b64Encode_no_ws d hd, mem_b64Encode_range d⟩
+
+/-! ### whole files on the reference reader -/
+
+/-- **Notification files.** What `NotificationFile::write_xml` emits is read back by the reference
+reader as exactly the tree of its fields (session, serial, snapshot and delta references in order),
+for all field values; and distinct values are written differently. -/
+theorem notification_read_back (n : Notification) :
+    XmlDoc.parseDoc (writeNotification n) = some (notificationTree n) := Rrdp.notification_read_back n
+
+theorem notification_writer_injective (a b : Notification) (h : writeNotification a = writeNotification b) :
+    a = b := Rrdp.writeNotification_injective a b h
+
+/-- **Snapshot and delta files.** The same for `Snapshot::write_xml` / `Delta::write_xml` with any
+list of publish / update / withdraw elements (objects of any length, including zero), element order
+preserved. -/
+theorem file_read_back (root session : Bytes) (serial : Nat) (elems : List Elem) (hroot : XmlDoc.NameOk root) :
+    XmlDoc.parseDoc (writeFile root session serial elems) = some (fileTree root session serial elems) :=
+  Rrdp.file_read_back_all root session serial elems hroot
+
+theorem file_writer_injective (root root' session session' : Bytes) (serial serial' : Nat) (elems elems' : List Elem)
+    (hroot : XmlDoc.NameOk root) (hroot' : XmlDoc.NameOk root') (ho : ∀ e ∈ elems, e.Octets) (ho' : ∀ e ∈ elems', e.Octets)
+    (h : writeFile root session serial elems = writeFile root' session' serial' elems') :
+    root = root' ∧ session = session' ∧ serial = serial' ∧ elems = elems' :=
+  Rrdp.writeFile_injective root root' session session' serial serial' elems elems' hroot hroot' ho ho' h
+
+/-- the fields come back from the tree: URIs un-escape, object text decodes -/
+theorem publish_fields (uri d : Bytes) (hne : d ≠ []) (hd : ∀ x ∈ d, x < 256) :
+    elemTree (.publish uri d) = .elem sPublish [(sUri, escapeAttr uri)] (some (.cons (.text (b64Encode d)) .nil)) ∧
+      unescapeAll (escapeAttr uri) = some uri ∧ xmlB64Decode (b64Encode d) = some d :=
+  Rrdp.elemTree_publish_fields uri d hne hd
+
 
 /-! ### non-vacuity -/
 
